@@ -514,6 +514,12 @@ func run(c *h.Check) {
 		c.Explore(scenario(s), bound, 400000, false)
 		c.Sample(map[string]any{"scenario": s.name, "shape": fmt.Sprintf("%+v", s)})
 	}
+	for _, m := range rmcases(c.Thorough()) {
+		if c.TimeUp() {
+			return
+		}
+		c.Explore(rmScenario(m), bound, 100000, false)
+	}
 	if c.Thorough() {
 		for _, s := range shapes(false) {
 			s.name += "/unbounded-pruned"
@@ -526,6 +532,11 @@ func replay(c *h.Check, rf *h.ReplayFile) []vrt.Violation {
 	for _, s := range append(shapes(true), deepShapes()...) {
 		if s.name == rf.Scenario || s.name+"/unbounded-pruned" == rf.Scenario {
 			return h.ReplaySchedule(scenario(s), rf)
+		}
+	}
+	for _, m := range rmcases(true) {
+		if m.name() == rf.Scenario {
+			return h.ReplaySchedule(rmScenario(m), rf)
 		}
 	}
 	vrt.MachineryFault("unknown scenario %q", rf.Scenario)
